@@ -4986,8 +4986,11 @@ class Path:
                         to = [idx for idx in seg.to if idx <= seg.id]
                         # add the waiting destinations
                         to += seg.await_to
-                        # replace destinations
+                        # replace destinations on a copy: the segment object
+                        # itself belongs to the part and to the other paths
+                        seg = copy(seg)
                         seg.to = to
+                        new_path.segments[segid] = seg
                     # delete used destinations
                     new_path.used_segment_jumps[segid] = list()
                 # add the jump destination to the used ones
